@@ -373,6 +373,43 @@ def check_altered(ctx, cirq, cirq_ionq):
             ctx.report_witness('aqt:sample-bits', 'AQT samples assign outcomes to the wrong qubits', dict(rep, impl_out=[data.astype(int).tolist()], spec_out=[flips]))
 
 
+def check_metadata_reuse(ctx, cirq, cirq_ionq):
+    """one metadata dictionary handed to the serializer for several circuits in a row: the measurement map of each job is that of its own
+    circuit (nothing left over from a previous one), and the caller's dictionary is left as it was"""
+    rng = ctx.substream('metadata-reuse')
+    ser = cirq_ionq.Serializer()
+    q = cirq.LineQubit.range(3)
+    for it in range(10 if ctx.tier == 'quick' else 100):
+        md = {'user': 'x'}
+        keep = dict(md)
+        for step in range(3):
+            keys = {}
+            for j in range(rng.choice([1, 2, 3])):
+                name = rng.choice('abcdefgh') * rng.choice([1, 12, 25])
+                if name in keys:
+                    continue
+                keys[name] = rng.sample(range(3), rng.choice([1, 2]))
+            circuit = cirq.Circuit(cirq.X(q[0]), *[cirq.measure(*[q[t] for t in ts], key=k) for k, ts in keys.items()])
+            ctx.count('check', 'ionq-metadata-reuse')
+            for form in ('single', 'many'):
+                try:
+                    prog = ser.serialize_single_circuit(circuit, metadata=md) if form == 'single' else ser.serialize_many_circuits([circuit], metadata=md)
+                except ValueError as e:
+                    ctx.count('ionq_rejected', str(e)[:40])
+                    continue
+                rep = {'lines': [{'circuit': repr(circuit), 'form': form, 'step': step}], 'theorem_or_correspondence': 'measurement metadata'}
+                if md != keep:
+                    ctx.report_witness('ionq:metadata:caller-dict', 'the serializer modifies the metadata dictionary it is given (entries of this circuit leak into the next job)', dict(rep, impl_out=[sorted(md)], spec_out=[sorted(keep)]))
+                    md = dict(keep)
+                if form == 'single':
+                    try:
+                        got_map = parse_ionq_metadata(prog.metadata)
+                    except ValueError as e:
+                        got_map = f'unreadable: {e}'
+                    if got_map != keys:
+                        ctx.report_witness('ionq:measurement-map', 'the measurement metadata does not map every key to its targets', dict(rep, impl_out=[got_map], spec_out=[keys]))
+
+
 def check_rules(ctx, cirq, cirq_ionq):
     """the serializer writes exactly the gate names and rotations whose meaning Props/C17b.lean proves for every exponent"""
     rng = ctx.substream('rules')
@@ -446,6 +483,7 @@ def run(ctx: common.Run):
     check_aqt(ctx, cirq, n // 2)
     check_altered(ctx, cirq, cirq_ionq)
     check_rules(ctx, cirq, cirq_ionq)
+    check_metadata_reuse(ctx, cirq, cirq_ionq)
 
 
 def replay(ctx, rep):
